@@ -4,6 +4,10 @@ from . import sym
 from .sym import Unsupported, zi, mk_int, IntS
 
 F_powmod = sym.uf("powmod", IntS, IntS, IntS, IntS)
+F_finv = sym.uf("finv", IntS, IntS, IntS)     # a**-1 mod m (0 for a = 0), m prime
+
+PRIMES = (0xFFFFFFFFFFFFFFFFFFFFFFFFFFFFFFFFFFFFFFFFFFFFFFFFFFFFFFFEFFFFFC2F,
+          0xFFFFFFFFFFFFFFFFFFFFFFFFFFFFFFFEBAAEDCE6AF48A03BBFD25E8CD0364141)
 
 
 def pow_mod(it, x, y, m, node):
@@ -14,6 +18,16 @@ def pow_mod(it, x, y, m, node):
             it.raise_(ValueError, node)
     if isinstance(m, int) and m == 0:
         it.raise_(ValueError, node)
+    if isinstance(m, int) and m in PRIMES and isinstance(y, int) and y in (-1, m - 2):
+        # x**(m-2) mod m and pow(x, -1, m) are both the field inverse of x modulo the prime m
+        # (lemma fermat_inv, lean/Field.lean; A-prime-p / A-prime-n).  pow(0, -1, m) raises ValueError.
+        if y == -1:
+            if it.ctx.decide(sym.mk_bool(zi(x) % m == 0)):
+                it.raise_(ValueError, node)
+        it.ctx.notes.setdefault("env", set()).add("A-prime (fermat_inv)")
+        r = F_finv(zi(x) % m if not isinstance(x, int) else z3.IntVal(x % m), z3.IntVal(m))
+        it.ctx.assume(z3.And(r >= 0, r < m))
+        return mk_int(r)
     if isinstance(y, int) and 0 <= y <= 4 and not isinstance(m, int) or (isinstance(y, int) and 0 <= y <= 4 and isinstance(m, int) and m > 0):
         # small constant exponent: the power itself (exact), reduced
         r = z3.IntVal(1)
